@@ -859,3 +859,22 @@ def array_shapes(max_items=3):
             yield 'x = [%s];' % body
             if n:
                 yield 'x = [%s,];' % body
+
+
+def long_lists(n):
+    """programs whose size comes from the *length* of one sibling list (not from nesting): n statements,
+    declarations, arguments, parameters, properties, elements, clauses, operands"""
+    r = range(n)
+    yield 'statements', ' '.join('s%d = %d;' % (i, i) for i in r)
+    yield 'block', '{ ' + ' '.join('b%d();' % i for i in r) + ' }'
+    yield 'function_body', 'function f() { ' + ' '.join('x%d++;' % i for i in r) + ' return x0; }'
+    yield 'var_declarations', 'var ' + ', '.join('v%d = %d' % (i, i) for i in r) + ';'
+    yield 'arguments', 'f(' + ', '.join('a%d' % i for i in r) + ');'
+    yield 'parameters', 'function g(' + ', '.join('p%d' % i for i in r) + ') { return p0; }'
+    yield 'properties', 'o = {' + ', '.join('k%d: %d' % (i, i) for i in r) + '};'
+    yield 'elements', 'a = [' + ', '.join('%d' % i for i in r) + '];'
+    yield 'cases', 'switch (x) { ' + ' '.join('case %d: c%d(); break;' % (i, i) for i in r) + ' default: d(); }'
+    # left-nested binary forms are deep trees, not long lists: bounded
+    yield 'comma_operands', 'x = (' + ', '.join('e%d' % i for i in range(min(n, 400))) + ');'
+    yield 'member_chain', 'y = r' + ''.join('.m%d' % i for i in range(min(n, 400))) + ';'
+    yield 'binary_chain', 'z = ' + ' + '.join('t%d' % i for i in range(min(n, 400))) + ';'
